@@ -63,9 +63,100 @@ def cases(ctx):
             "compressed": [r.random() < 0.6 for _ in range(3)],
             "m": m,
             "sep": r.choice([None, None, "lead", "mid", "before_op", "two", "trail"]),
+            # a conditional block in front of the spend template: executed / skipped branches, with code separators inside or after them
+            "cond": (CONDS[(i + ctx.shard) % len(CONDS)] if i % 3 == 2 else None),
             "signer": r.choice(["ref", "ref", "lib"]),
             "seed": r.getrandbits(30),
         }
+
+
+S_ = ("op", 171)
+NOP = ("op", 97)
+# name -> (prefix tokens, flat index of the last separator EXECUTED inside the prefix or None)
+COND_PREFIX = {
+    "if_taken_then_sep": ([("op", 81), ("op", 99), NOP, ("op", 104), S_], 4),
+    "if_taken_no_sep": ([("op", 81), ("op", 99), NOP, ("op", 104)], None),
+    "if_skipped_then_sep": ([("op", 0), ("op", 99), NOP, ("op", 104), S_], 4),
+    "notif_taken_no_sep": ([("op", 0), ("op", 100), NOP, NOP, ("op", 104)], None),
+    "sep_inside_taken": ([("op", 81), ("op", 99), S_, NOP, ("op", 104)], 2),
+    "sep_inside_skipped": ([("op", 0), ("op", 99), S_, ("op", 104)], None),
+    "sep_in_else_taken": ([("op", 0), ("op", 99), NOP, ("op", 103), S_, ("op", 104)], 4),
+    "sep_in_else_skipped": ([("op", 81), ("op", 99), NOP, ("op", 103), S_, ("op", 104)], None),
+    "sep_then_if_taken": ([S_, ("op", 81), ("op", 99), NOP, ("op", 104)], 0),
+    "nested_taken_then_sep": ([("op", 81), ("op", 81), ("op", 99), ("op", 99), NOP, ("op", 104), ("op", 104), S_], 7),
+}
+CONDS = sorted(COND_PREFIX)
+
+
+def tree_bits(toks):
+    """flat tokens -> the library's element tree: a conditional block is ONE element {if, pass, fail}"""
+
+    def walk(i, stop):
+        out = []
+        while i < len(toks):
+            t = toks[i]
+            if t[0] == "op" and t[1] in stop:
+                return out, i
+            if t[0] == "op" and t[1] in (99, 100):
+                pas, j = walk(i + 1, (103, 104))
+                fail = None
+                if toks[j][1] == 103:
+                    fail, j = walk(j + 1, (104,))
+                out.append(("if", t[1], pas, fail))
+                i = j + 1
+            else:
+                out.append(t)
+                i += 1
+        return out, i
+
+    return walk(0, ())[0]
+
+
+def flat_of(bits):
+    out = []
+    for b in bits:
+        if b[0] == "if":
+            out.append(("op", b[1]))
+            out += flat_of(b[2])
+            if b[3] is not None:
+                out.append(("op", 103))
+                out += flat_of(b[3])
+            out.append(("op", 104))
+        else:
+            out.append(b)
+    return out
+
+
+def defect_model_subscript(n_unlock, locking):
+    """KNOWN FINDING model: the library records the code separator position as an index into the EXECUTING element list (taken
+    branches are spliced into it) but cuts the subscript from the locking script's original top-level element list at that index.
+    Returns the subscript bytes the library uses, or None where it now reports an error (index past the end)."""
+    top = tree_bits(locking)
+    L = [("push", b"")] * n_unlock + list(top)
+    i = 0
+    off = 0
+    st = []  # only the constants in front of conditionals matter
+    while i < len(L):
+        b = L[i]
+        if b[0] == "if":
+            pred = st.pop() if st else False
+            take_first = (not pred) if b[1] == 100 else pred
+            br = b[2] if take_first else (b[3] or [])
+            L[i + 1 : i + 1] = br
+        elif b[0] == "op":
+            if b[1] == 171:
+                off = i + 1
+            elif b[1] in (172, 173, 174, 175):
+                break
+            elif b[1] == 81:
+                st.append(True)
+            elif b[1] == 0:
+                st.append(False)
+        i += 1
+    so = max(0, off - n_unlock)
+    if so > len(top):
+        return None
+    return wire.detok(flat_of(top[so:]))
 
 
 class Scenario:
@@ -100,17 +191,30 @@ class Scenario:
             lk = [S] + lk[:2] + [S] + lk[2:]
         elif sep == "trail":
             lk = lk + [S]
-        self.locking = lk
-
-    def subscript(self, lk=None):
-        """locking script after the last separator executed before the signature opcode"""
-        lk = self.locking if lk is None else lk
+        # position of the last separator executed before the signature opcode, as a flat token index
         j = max(i for i, t in enumerate(lk) if t[0] == "op" and t[1] in (172, 173, 174, 175))
         last = -1
         for i, t in enumerate(lk[:j]):
             if t == ("op", 171):
                 last = i
-        return wire.detok(lk[last + 1 :])
+        self.cond = case.get("cond")
+        if self.cond:
+            pre, pre_last = COND_PREFIX[self.cond]
+            if last >= 0:
+                last += len(pre)
+            elif pre_last is not None:
+                last = pre_last
+            lk = list(pre) + lk
+        self.sub_from = last + 1
+        self.locking = lk
+        self.override_sub = None
+
+    def subscript(self, lk=None):
+        """locking script bytes after the last separator executed before the signature opcode (variants keep the token positions)"""
+        if self.override_sub is not None:
+            return self.override_sub
+        lk = self.locking if lk is None else lk
+        return wire.detok(lk[self.sub_from :])
 
     def digest(self, tx, flag, value, lk=None):
         return wire.sha256d(sighash.preimage(tx, self.idx, self.subscript(lk), value, flag))
@@ -145,11 +249,36 @@ def expected_accept(sc, tx, value, unlocking, locking):
     toks = unlocking + locking
     st = []
     alt = []
+    ex = []  # execution flags of the open conditionals
     for t in toks:
+        if t[0] == "op" and t[1] in (99, 100, 103, 104):
+            c = t[1]
+            if c in (99, 100):
+                if all(ex):
+                    if not st:
+                        return False
+                    v = interp.truth(st.pop())
+                    ex.append(v if c == 99 else not v)
+                else:
+                    ex.append(False)
+            elif c == 103:
+                if not ex:
+                    return False
+                if all(ex[:-1]):
+                    ex[-1] = not ex[-1]
+            else:
+                if not ex:
+                    return False
+                ex.pop()
+            continue
+        if not all(ex):
+            continue
         if t[0] != "op":
             st.append(t[-1])
             continue
         c = t[1]
+        if c == 171:
+            continue
         if c in (172, 173):
             if len(st) < 2:
                 return False
@@ -201,9 +330,28 @@ def expected_accept(sc, tx, value, unlocking, locking):
     return bool(st) and interp.truth(st[-1])
 
 
+KNOWN_REJECT = "subscript is cut from the un-executed element list: valid spend rejected when a conditional ran before, or encloses, the last executed code separator"
+KNOWN_ACCEPT = "subscript is cut from the un-executed element list: spend signed over the library's own wrong subscript accepted when a conditional ran before, or encloses, the last executed code separator"
+
+
+def defect_expect(sc, tx, val, un, lk):
+    """verdict the library reaches if (and only if) it behaves as the recorded finding says"""
+    sub = defect_model_subscript(len(un), lk)
+    if sub is None:
+        return False
+    sc.override_sub = sub
+    try:
+        return expected_accept(sc, tx, val, un, lk)
+    finally:
+        sc.override_sub = None
+
+
 def judge(ctx, case):
     rnd = random.Random(case["seed"])
     sc = Scenario(case)
+    if sc.cond:
+        ctx.hit("with_conditional")
+        ctx.hit("cond_" + sc.cond)
     tx0, idx, flag, value = sc.tx, sc.idx, case["flag"], case["value"]
     fam = case["family"]
     ctx.hit("family_" + fam)
@@ -246,6 +394,23 @@ def judge(ctx, case):
         variants.append((name, tx if tx is not None else tx0, value if val is None else val, un if un is not None else unlocking_of(sigs), lk if lk is not None else sc.locking))
 
     add("unmodified")
+    if sc.cond:
+        # probe for the recorded finding: signatures over the subscript the library is known to use instead
+        wrong = defect_model_subscript(len(unlocking_of(sigs)), sc.locking)
+        if wrong is not None and wrong != sc.subscript():
+            sc.override_sub = wrong
+            try:
+                dw = sc.digest(tx0, flag, value)
+            except sighash.NoSingleOutput:
+                dw = None
+            finally:
+                sc.override_sub = None
+            if dw is not None and dw != d0:
+                ws = []
+                for si in signers:
+                    e = ec.sign_det(sc.keys[si], dw)
+                    ws.append(ec.der_encode(e[0], e[1]) + bytes([flag]))
+                add("signed over the subscript cut from the un-executed element list", un=unlocking_of(ws))
     if fam == "multisig" and len(signers) >= 2:
         # every signature valid for its OWN flag byte (the flag selects the preimage per signature)
         mixed = []
@@ -333,8 +498,19 @@ def judge(ctx, case):
         noclaim = "(no claim)" in name
         ext = [None] * len(t2["ins"])
         ext[idx] = {"locking": wire.detok(lk).hex(), "satoshis": val}
-        r = ctx.call({"op": "interp", "tx": wire.tx_encode(t2).hex(), "idx": idx, "ext": ext, "max_steps": len(un) + len(lk) + 2, "mode": "run"})
+        rq = {"op": "interp", "tx": wire.tx_encode(t2).hex(), "idx": idx, "ext": ext, "max_steps": len(un) + len(lk) + 2, "mode": "run"}
+        if (case["sep"] or sc.cond) and name in ("unmodified", "declared value changed", "signed over the subscript cut from the un-executed element list", "sequence of signed input changed"):
+            # the same spend with the interpreter object copied (serde JSON / clone) right after the separator has been executed
+            rq["mixed"] = {"k": len(un) + sc.sub_from, "via": "json" if rnd.random() < 0.7 else "clone"}
+        r = ctx.call(rq)
         ctx.ev()
+        mx = r.get("ok", {}).get("mixed") if isinstance(r.get("ok"), dict) else None
+        if mx is not None and mx["stopped"] is None and mx["via_err"] is None and mx.get("bits_preserved", True) and r["ok"]["run"]["end"] != "panic":
+            ctx.ev()
+            ctx.hit("resumed_after_separator")
+            run_ = r["ok"]["run"]
+            if (mx["end"], mx["post"]) != (run_["end"], run_["post"]):
+                ctx.viol("an interpreter copied (serde JSON / clone) after the code separator was executed reaches a different verdict than the uninterrupted run", {"variant": name, "mixed": str(mx)[:300], "run": str(run_)[:300]})
         ctx.hit("variant")
         ctx.nontrivial()
         ctx.hit("expect_accept" if exp else "expect_reject")
@@ -361,6 +537,10 @@ def judge(ctx, case):
         fl = "FORKID" if flag & 0x40 else "legacy"
         if noclaim:
             ctx.note("high-S signature %s (low-S is policy, not part of the statement)" % ("accepted" if got else "rejected"))
+        elif sc.cond and got != exp and got == defect_expect(sc, tx, val, un, lk):
+            # exactly the behaviour of the recorded finding (anything else in these scenarios is reported as usual)
+            ctx.hit("matches_recorded_subscript_finding")
+            ctx.viol(KNOWN_REJECT if exp else KNOWN_ACCEPT, {"flag": flag, "variant": name, "cond": sc.cond, "locking": wire.detok(lk).hex()})
         elif exp and not got:
             ctx.viol("valid spend rejected: %s %s, %s, signer=%s%s" % (fam, "VERIFY form" if case["verify_form"] else "plain form", name, case["signer"], ", with code separator" if case["sep"] else ""), {"flag": flag, "resp": str(r.get("ok", r))[:400], "variant": name})
         elif got and not exp:
